@@ -8,11 +8,10 @@ def unit():
     hs = [Harness(f"pae_n{n}", ["C15", "C02"], tier="quick" if n <= 3 else "thorough", functions=fn, timeout=3600 if n <= 5 else 7200,
                   desc=f"N={n} pieces, every fragmentation into 0..=4 fragments, ALL fragment lengths (unbounded symbolic): writer receives exactly le64(N) || per piece le64(total) || fragments by identity")
           for n in range(0, 9)]
-    hs += [Harness(f"pae_focus_n{n}", ["C15", "C02"], functions=fn, timeout=2400, complete=False,
+    hs += [Harness(f"pae_focus_n{n}", ["C15", "C02"], functions=fn, timeout=3000, complete=False, tier="quick" if n <= 5 else "thorough",
                    bound=f"N={n}: one piece (symbolic position) with 0..=4 fragments, the others with exactly one; ALL fragment lengths",
                    desc="same postcondition, fragmentation of one piece at a time") for n in range(4, 9)]
     hs.append(Harness("vec_writer_appends", ["C15"], complete=False, bound="slices of <= 4 and <= 8 bytes", functions=["paseto-core/src/encodings.rs::<Vec<u8> as WriteBytes>::write", "paseto-core/src/encodings.rs::<&mut W as WriteBytes>::write"]))
-    hs.append(Harness("pae_vec_bytes_3", ["C15"], complete=False, bound="shape (3,1,1), lengths 2,1,2 / 3 / 2", functions=fn))
     hs.append(Harness("canary_pae", ["C15"], expect="fail"))
     return Unit(
         name="u1_pae", members=["paseto-core"], package="paseto-core",
